@@ -35,6 +35,14 @@ def build(s):
         return [build(x) for x in s["v"]]
     if t == "dict":
         return {k: build(v) for k, v in s["v"]}
+    if t == "fnref" and s.get("ext"):
+        # a reference to a function this process cannot resolve (a module that is not there): an external stub that
+        # carries the recorded parameter names
+        from twosigma.memento.reference import FunctionReference
+        ref = FunctionReference.from_qualified_name(
+            "va::gone.module:helper#9", partial_args=tuple(build(x) for x in s.get("pargs", [])) or None,
+            partial_kwargs={k: build(v) for k, v in s.get("pkw", [])} or None, parameter_names=["p", "q"], external=True)
+        return ref.memento_fn
     if t == "fnref":
         fn = verif_args.target
         if s.get("pargs") or s.get("pkw"):
@@ -44,11 +52,14 @@ def build(s):
 
 
 def typed_equal(a, b):
-    if isinstance(b, m.MementoFunction) or isinstance(a, m.MementoFunction):
+    if callable(getattr(a, "fn_reference", None)) or callable(getattr(b, "fn_reference", None)):
+        # memento functions, resolvable or external stubs: equal iff they name the same function with the same bound arguments
+        # (and the same recorded parameter names)
         try:
             ra, rb = a.fn_reference(), b.fn_reference()
             return (ra.qualified_name == rb.qualified_name and typed_equal(list(ra.partial_args or ()), list(rb.partial_args or ()))
-                    and typed_equal(dict(ra.partial_kwargs or {}), dict(rb.partial_kwargs or {})))
+                    and typed_equal(dict(ra.partial_kwargs or {}), dict(rb.partial_kwargs or {}))
+                    and list(ra.parameter_names or []) == list(rb.parameter_names or []))
         except Exception:
             return False
     if type(a) is not type(b):
